@@ -649,7 +649,7 @@ def shrink(v, budget=80):
             r = check_one(c)
         except Exception:  # noqa: BLE001
             return None
-        return r["viol"][0] if r["viol"] else None
+        return r["viol"][0] if r["viol"] and r["viol"][0]["what"] == v["what"] else None
 
     changed = True
     while changed and budget > 0:
@@ -731,8 +731,8 @@ def run(ck: core.Check):
     import rpft.parsers.creation.contentindexparser  # noqa: F401
 
     quick = ck.tier == "quick"
-    n_valid = 3000 if quick else 40000
-    n_bad = 400 if quick else 4000
+    n_valid = 8000 if quick else 60000
+    n_bad = 800 if quick else 6000
     seeds = [ck.rng.getrandbits(48) for _ in range(n_valid)]
     _fold(ck, par.pmap(worker, [(s, False, 12 if quick else 6) for s in core.shard(seeds, par.NPROC * 4)]), "histories")
     bseeds = [ck.rng.getrandbits(48) for _ in range(n_bad)]
